@@ -674,6 +674,7 @@ func c04API(c *Ctx) {
 			}
 		}
 	}
+	c04FieldPath(c, fx)
 }
 
 func trunc(b []byte, n int) []byte {
@@ -681,4 +682,109 @@ func trunc(b []byte, n int) []byte {
 		return b[:n]
 	}
 	return b
+}
+
+// c04FieldPath: `fieldPath` (the resolution of body / response_body selectors and of variables'
+// field paths) on the fixture's real descriptors against Model/FieldPath, for selectors of one to
+// four components drawn from proto names, JSON names and junk.
+func c04FieldPath(c *Ctx, fx *Fixture) {
+	for _, root := range []string{"Reply", "Req"} {
+		md := fx.MsgDesc(root)
+		// the table of message types reachable from the root, root first
+		index := map[protoreflect.FullName]int{md.FullName(): 0}
+		order := []protoreflect.MessageDescriptor{md}
+		for i := 0; i < len(order); i++ {
+			fs := order[i].Fields()
+			for k := 0; k < fs.Len(); k++ {
+				if sub := fs.Get(k).Message(); sub != nil {
+					if _, ok := index[sub.FullName()]; !ok {
+						index[sub.FullName()] = len(order)
+						order = append(order, sub)
+					}
+				}
+			}
+		}
+		var tys []string
+		pool := []string{"nope", "", "Nested", "*"}
+		for _, m := range order {
+			var fl []string
+			fs := m.Fields()
+			for k := 0; k < fs.Len(); k++ {
+				f := fs.Get(k)
+				sub := "-"
+				if f.Message() != nil {
+					sub = strconv.Itoa(index[f.Message().FullName()])
+				}
+				rep := "0"
+				if f.IsList() || f.IsMap() {
+					rep = "1"
+				}
+				fl = append(fl, fmt.Sprintf("%s,%s,%d,%s,%s", hexS(string(f.Name())), hexS(f.JSONName()), f.Number(), rep, sub))
+				if len(order) < 40 && c.Rng.Intn(3) > 0 || m == md {
+					pool = append(pool, string(f.Name()), f.JSONName())
+				}
+			}
+			if len(fl) == 0 {
+				tys = append(tys, "-")
+			} else {
+				tys = append(tys, strings.Join(fl, ";"))
+			}
+		}
+		table := strings.Join(tys, "|")
+		for i := 0; i < c.N(400, 4000); i++ {
+			n := 1 + c.Rng.Intn(4)
+			var names, hx []string
+			cur := md
+			for k := 0; k < n; k++ {
+				var nm string
+				if cur != nil && cur.Fields().Len() > 0 && c.Rng.Intn(5) > 0 { // mostly a real field of where the walk is
+					f := cur.Fields().Get(c.Rng.Intn(cur.Fields().Len()))
+					if k < n-1 && c.Rng.Intn(10) < 8 { // not the last component: mostly a field that can be walked through
+						var msgs []protoreflect.FieldDescriptor
+						for q := 0; q < cur.Fields().Len(); q++ {
+							if g := cur.Fields().Get(q); g.Message() != nil && (c.Rng.Intn(6) == 0 || !g.IsList() && !g.IsMap()) {
+								msgs = append(msgs, g)
+							}
+						}
+						if len(msgs) > 0 {
+							f = msgs[c.Rng.Intn(len(msgs))]
+						}
+					}
+					nm = []string{string(f.Name()), f.JSONName()}[c.Rng.Intn(2)]
+					cur = f.Message()
+				} else {
+					nm = pool[c.Rng.Intn(len(pool))]
+					cur = nil
+				}
+				if strings.Contains(nm, ".") {
+					nm = "x"
+				}
+				names = append(names, nm)
+				hx = append(hx, hexS(nm))
+			}
+			var impl string
+			func() {
+				defer func() {
+					if p := recover(); p != nil {
+						impl = "panic"
+					}
+				}()
+				fds := larking.VerifFieldPath(md.Fields(), names...)
+				if fds == nil {
+					impl = "nil"
+					return
+				}
+				var nums []string
+				for _, fd := range fds {
+					nums = append(nums, strconv.Itoa(int(fd.Number())))
+				}
+				impl = "ok " + strings.Join(nums, ",")
+			}()
+			c.Correspond("fieldpath", join("fieldpath", table, strings.Join(hx, ".")), impl, impl != "nil")
+			c.Class("fieldpath:" + root + ":" + strings.SplitN(impl, " ", 2)[0] + ":" + strconv.Itoa(n))
+			if impl == "panic" {
+				c.SpecFail("fieldpath", root+" "+strings.Join(names, "."), "panic", "a path or nil", "C04/fieldpath/panic", "fieldPath panics")
+			}
+		}
+	}
 }
